@@ -1969,11 +1969,14 @@ namespace cds { namespace intrusive {
             {
                 rcu_lock l;
 
-                if ( !find_min_position( pos )) {
-                    m_Stat.onExtractMinFailed();
-                    pDel = nullptr;
-                }
-                else {
+                for (;;) {
+                    if ( !find_min_position( pos )) {
+                        // the list is empty
+                        m_Stat.onExtractMinFailed();
+                        pDel = nullptr;
+                        break;
+                    }
+
                     pDel = pos.pCur;
                     unsigned int const nHeight = pDel->height();
 
@@ -1981,11 +1984,11 @@ namespace cds { namespace intrusive {
                         --m_ItemCounter;
                         m_Stat.onRemoveNode( nHeight );
                         m_Stat.onExtractMinSuccess();
+                        break;
                     }
-                    else {
-                        m_Stat.onExtractMinFailed();
-                        pDel = nullptr;
-                    }
+
+                    // the item has been removed by another thread, try the next one
+                    m_Stat.onExtractMinRetry();
                 }
             }
 
@@ -2002,11 +2005,14 @@ namespace cds { namespace intrusive {
             {
                 rcu_lock l;
 
-                if ( !find_max_position( pos )) {
-                    m_Stat.onExtractMaxFailed();
-                    pDel = nullptr;
-                }
-                else {
+                for (;;) {
+                    if ( !find_max_position( pos )) {
+                        // the list is empty
+                        m_Stat.onExtractMaxFailed();
+                        pDel = nullptr;
+                        break;
+                    }
+
                     pDel = pos.pCur;
                     unsigned int const nHeight = pDel->height();
 
@@ -2014,11 +2020,11 @@ namespace cds { namespace intrusive {
                         --m_ItemCounter;
                         m_Stat.onRemoveNode( nHeight );
                         m_Stat.onExtractMaxSuccess();
+                        break;
                     }
-                    else {
-                        m_Stat.onExtractMaxFailed();
-                        pDel = nullptr;
-                    }
+
+                    // the item has been removed by another thread, try the next one
+                    m_Stat.onExtractMaxRetry();
                 }
             }
 
